@@ -62,7 +62,7 @@ def rules(ctx: Ctx) -> None:
 
     ALLOWED = {
         "SubQueryLineageHolder.expand_wildcard": {
-            "<.parent>", "<_get_target_table()>", "self._get_target_table()", "<loop:.write_columns>.raw_name == '*'", "<loop:get_source_columns()>.parent",
+            "<.parent>", "<None|next(iter(<difference()>))>", "<loop:.write_columns>.raw_name == '*'", "<loop:get_source_columns()>.parent",
             "isinstance(<.parent>, SubQuery)", "isinstance(<.parent>, Table)",
         },
         "SQLLineageHolder._build_digraph": {
@@ -78,14 +78,25 @@ def rules(ctx: Ctx) -> None:
     }
 
     def allowed_fact(fn: Fn, txt: str, recv: str) -> bool:
+        """every leaf atom of the (canonical, flag-expanded) condition is a whitelisted atom, in either polarity"""
         if txt in (recv, f"bool({recv})"):
             return True
         owner = f"{fn.cls.name}.{fn.name}" if fn.cls else fn.name
-        c = canon_text(prog, fn, txt)
         crecv = canon_text(prog, fn, recv)
-        if c in (crecv, f"bool({crecv})"):
-            return True
-        return c in ALLOWED.get(owner, set())
+        try:
+            tree = canon(prog, fn, ast.parse(txt, mode="eval").body, as_ast=True)
+        except SyntaxError:
+            return False
+        from ..astutil import leaf_atoms
+
+        for leaf in leaf_atoms(tree):
+            c = u(leaf)
+            if c in (crecv, f"bool({crecv})") or c in ALLOWED.get(owner, set()):
+                continue
+            if _complement_in(leaf, ALLOWED.get(owner, set()) | {crecv}):
+                continue
+            return False
+        return True
 
     tainted_names: dict[str, set[str]] = {}
     for f, call in lookups:
@@ -272,15 +283,15 @@ def _names_of(txt: str) -> set[str]:
 
 
 def _complement_of_allowed(fn, txt: str, recv: str, allowed) -> bool:
+    return False  # complements are handled per leaf atom inside allowed_fact
+
+
+def _complement_in(e: ast.AST, allowed: set[str]) -> bool:
     """Facts come in complementary spellings (`a == b` / `a != b`); accept the complement of an allowed atom."""
-    try:
-        e = ast.parse(txt, mode="eval").body
-    except SyntaxError:
-        return False
     if isinstance(e, ast.Compare) and len(e.ops) == 1:
         flip = {ast.Is: ast.IsNot, ast.IsNot: ast.Is, ast.In: ast.NotIn, ast.NotIn: ast.In, ast.Eq: ast.NotEq, ast.NotEq: ast.Eq, ast.Lt: ast.GtE, ast.GtE: ast.Lt, ast.Gt: ast.LtE, ast.LtE: ast.Gt}
         op = type(e.ops[0])
         if op in flip:
             comp = ast.Compare(left=e.left, ops=[flip[op]()], comparators=e.comparators)
-            return allowed(fn, u(comp), recv)
+            return u(comp) in allowed
     return False
